@@ -4,6 +4,14 @@ import json, sys
 
 ENGINE = "gsx"
 CHECKS = {
+ "C02": dict(
+   text="The real decoders (hand-written and reflection-driven) are executed on N fully symbolic input bytes; every Go run-time panic, every allocation with a symbolic size (budget 256*N + 4 MiB), the consumed-bytes bound and loop bounds are obligations decided by the solver for all 256^N inputs per length.",
+   note="Bounds per type in the evidence (N between 3 and 17 quick). Found and fixed (f896de1): negative array length panic, dimension-product overflow hang, unbounded allocations. Trusted: go/ssa, gsx (reflect intrinsics), z3.",
+   ref="DESIGN.md §5 C02"),
+ "C03": dict(
+   text="decode -> Encode -> decode on N fully symbolic input bytes for the hand-written codecs; Encode must not fail or panic, the re-encoding must decode completely and reflect.DeepEqual (symbolic) to the first decode.",
+   note="Bounds per type in the evidence. Found and fixed: ExtensionObject with nil Value panicked in Encode; scalar Variant with the dimensions bit re-encoded longer. Trusted: go/ssa, gsx, z3.",
+   ref="DESIGN.md §5 C03"),
  "C11": dict(
    text="The real send path is executed from an arbitrary counter pre-state and the sequence numbers on the wire are checked (+1, single permitted restart, never 0). Two concurrent senders are explored under every schedule with a bounded number of preemptions at synchronisation operations (context-bounded analysis inside the symbolic executor); wire numbers must stay +1 and messages contiguous.",
    note="Kernel + bounded schedules: 2 senders, <= 2 (quick) / 3 (thorough) preemptions; the renewal race is outside the claim. Trusted: go/ssa, gsx (goroutine interpretation), cvc5.",
